@@ -106,9 +106,11 @@ PROPS = {
     },
     "C02": {
         "lean_modules": ["TableauVerif.Props.C02", "TableauVerif.Props.C02Flat", "TableauVerif.Props.C07Header"],
-        "oracles": ["c02.closure", "c02.known"],
+        "oracles": ["c02.closure", "c02.known", "c14.merge"],
         "streams": [
             ("e2e.C02.closure", 400, 20000, 8),
+            # protogen and confgen must resolve the same header rows and lines (every option's presence varied independently)
+            ("corr.parseroptions.mergeHeader", 3000, 200000),
             ("corr.protogen.parseHeader", 3000, 100000),
             ("corr.types.misc", 6000, 100000),
         ],
@@ -153,7 +155,7 @@ PROPS = {
     },
     "C17": {
         "lean_modules": ["TableauVerif.Props.C17"],
-        "oracles": ["c17.cls", "c17.fuzz", "c17.docfuzz"],
+        "oracles": ["c17.cls", "c17.fuzz", "c17.docfuzz", "c17.cross"],
         "streams": [
             ("corr.types.match", 60000, 600000),
             ("corr.types.misc", 9000, 200000),
@@ -277,9 +279,11 @@ PROPS = {
     },
     "C05": {
         "lean_modules": ["TableauVerif.Props.C05", "TableauVerif.Props.C16Pools", "TableauVerif.Props.C05Loops"],
-        "oracles": ["c05.typeinfos", "c05.gen", "c13.dry", "c11.merge", "c04.det"],
+        "oracles": ["c05.typeinfos", "c05.gen", "c13.dry", "c11.merge", "c04.det", "c17.fuzz", "c17.cross"],
         "streams": [
             ("replay.C05.typeinfos", 2, 12, 1),
+            # termination of whole conversions on arbitrary workbooks (watchdog; D47: cross:-1 on an optional sheet)
+            ("e2e.C17.nopanic", 160, 4000),
             ("e2e.C05", 24, 400, 4),
             # the per-overlay goroutines of a scattered sheet share nothing they write: previews are independent of each
             # other and of the schedule (a violation shows as differing previews or as a crash of the worker)
@@ -340,11 +344,13 @@ PROPS = {
     },
     "C13": {
         "lean_modules": ["TableauVerif.Props.C13"],
-        "oracles": ["c13.patch", "c13.load", "c13.dry"],
+        "oracles": ["c13.patch", "c13.load", "c13.dry", "c13.tbl"],
         "streams": [
             ("corr.xproto.patch", 6000, 300000),
             ("e2e.C13.load", 3000, 100000),
             ("e2e.C13.dryrun", 40, 1500),
+            # table worksheets: PATCH_REPLACE marks of scalar and struct list columns through GenProto, dry run and loader
+            ("e2e.C13.table", 200, 8000),
         ],
         "assumptions": [
             "modelled: xproto.PatchMessage/patchMessage/patchList/patchMap over message trees (populated fields only); unknown fields not modelled",
@@ -374,7 +380,7 @@ PROPS = {
     },
     "C07": {
         "lean_modules": ["TableauVerif.Props.C07", "TableauVerif.Props.C07Desc", "TableauVerif.Props.C07Header"],
-        "oracles": ["c07.position", "c07.desc", "c07.corrupt", "c07.skip", "tp.parse", "pg.errpos", "c07.book"],
+        "oracles": ["c07.position", "c07.desc", "c07.corrupt", "c07.skip", "tp.parse", "pg.errpos", "c07.book", "pg.e2epos"],
         "streams": [
             ("corr.excel.position", 4000, 200000),
             ("corr.xerrors.newDesc", 6000, 300000),
@@ -382,6 +388,8 @@ PROPS = {
             ("corr.confgen.tableParse", 6000, 200000),
             ("corr.protogen.parseHeader", 8000, 200000),
             ("spec.C07.headerPos", 8000, 200000),
+            # the same spoilt headers through the real GenProto: NameCellPos / TypeCellPos of the rendered error
+            ("spec.C07.headerPosE2E", 1000, 30000),
             ("e2e.C07.book", 240, 10000),
         ],
         "assumptions": [
